@@ -55,6 +55,12 @@ Num(attr, cmp, n)    == At(attr, cmp, <<>>, n, "")
 ProtoNames == [tcp |-> 6, udp |-> 17, icmp |-> 1]
 Sym(attr, cmp, name) == At(attr, cmp, <<>>, ProtoNames[name], name)
 
+\* Host names as values of sip / dip (node.resolve: the name is looked up when the condition is prepared
+\* and stands for ALL its addresses): "a = name" holds when a equals one of them, "a != name" is - as for
+\* every value - the complement.  Names is the resolver's table (the check provides it as /etc/hosts).
+Names == ("two4.test" :> {V4A, V4B}) @@ ("mixed.test" :> {V4B, V6P}) @@ ("one.test" :> {V4A})
+IsName(a) == a.attr \in {"sip", "dip"} /\ a.sym \in DOMAIN Names
+
 AddrAttrs  == {"sip", "dip", "src", "dst", "host"}
 NetAttrs   == {"snet", "dnet", "net"}
 PortAttrs  == {"dport", "port"}
@@ -69,14 +75,14 @@ BaseAttr(a) == CASE a = "src" -> "sip" [] a = "dst" -> "dip" [] a = "port" -> "d
 
 \* atoms the documentation gives a meaning to
 LegalAtom(a) ==
-  CASE a.attr \in AddrAttrs  -> a.cmp \in EqCmps /\ IsAddr(a.b)
+  CASE a.attr \in AddrAttrs  -> a.cmp \in EqCmps /\ (IsAddr(a.b) \/ IsName(a))
     [] a.attr \in NetAttrs   -> a.cmp \in EqCmps /\ IsAddr(a.b) /\ a.n \in 0..MaxPrefix(a.b)
     [] a.attr \in PortAttrs  -> a.cmp \in EqCmps \cup OrdCmps /\ a.n \in 0..65535
     [] a.attr \in ProtoAttrs -> /\ a.cmp \in EqCmps \cup OrdCmps /\ a.n \in 0..255
                                 /\ (a.sym # "" => a.sym \in DOMAIN ProtoNames /\ ProtoNames[a.sym] = a.n)
     [] OTHER -> FALSE
 
-FamilyBound(a) == a.attr \in AddrAttrs \cup NetAttrs
+FamilyBound(a) == a.attr \in AddrAttrs \cup NetAttrs /\ ~IsName(a)
 
 (***************************************************************************)
 (* Part 1b: meaning                                                        *)
@@ -91,7 +97,8 @@ HoldsEqB(at, a, f) ==
     [] at = "net"   -> f.fam = Fam(a.b) /\ (PrefixEq(f.sip, a.b, a.n) \/ PrefixEq(f.dip, a.b, a.n))
     [] at = "dport" -> f.dport = a.n
     [] at = "proto" -> f.proto = a.n
-HoldsEq(a, f) == HoldsEqB(BaseAttr(a.attr), a, f)
+HoldsEq(a, f) == IF IsName(a) THEN \E addr \in Names[a.sym] : HoldsEqB(a.attr, [a EXCEPT !.b = addr], f)
+                 ELSE HoldsEqB(BaseAttr(a.attr), a, f)
 
 NumOf(a, f) == IF BaseAttr(a.attr) = "dport" THEN f.dport ELSE f.proto
 
